@@ -301,6 +301,14 @@ def drive (rest : String) : String :=
     match parsed with
     | some (c, tbl, ops) => "|".intercalate (prun (posTable tbl) c (init c) ops)
     | none => "bad-request"
+  | ["big", cap, rows] =>
+    -- a new process over a store with `rows` processed records and a filter of capacity `cap` (both may be large: the
+    -- default capacity is 100000): is the hydrated filter authoritative, and how many ids did it load?
+    match Parse.nat? cap, Parse.nat? rows with
+    | some cap, some rows =>
+      let b := hydrateFromStore (fun _ => []) cap (List.range rows) (Bloom.fresh 8)
+      s!"auth={b01 b.auth} n={b.count}"
+    | _, _ => "bad-request"
   | _ => "bad-request"
 
 end Stab.Dedup
